@@ -369,4 +369,8 @@ def run(db, tier):
     rep.check(len(callers) >= 1, "R-CONTIG", "recognize|precondition used", f.loc, "used by %s" % [g.id.rsplit("::", 1)[-1] for g in callers][:3],
               "bitmask_bits_are_contiguous is no longer called by the diff-switch recogniser")
     S.set_aliases([])
+    # every statement produced by block desugaring carries the difficulty label in force (rule shared with C06)
+    from props import c06
+    rep.absorb(c06.run(db, tier), rules=("R-DESUGAR-SHAPE",), why="the label of a statement is its own label, else the enclosing block's; a full mask is dropped only after that choice")
+    S.set_aliases([])
     return rep
